@@ -72,3 +72,39 @@ meta("C07",
      min_counts={"quick": {"public_calls": 30000, "gfapy_errors": 5000, "cli_runs": 20}},
      assumptions=["files are written as UTF-8 text; undecodable bytes and missing files are environment faults outside the claim",
                   "termination is restated as bounded progress: no call may exceed the deterministic step budget; a wall-clock watchdog firing is inconclusive"])
+
+meta("C03",
+     rule="valid GFA1/GFA2 documents of 3..5 (quick) / 3..7 (thorough) lines with every record family: ALL n! arrival orders are executed and the full public observation (version, written records, namespace, per-line reference targets, per-collection back-references, path link direction flags) must be identical across orders, equal the model's neighbourhoods, and contain no placeholder for a defined identifier; larger documents (<=14 lines) with sampled orders; non-trivial = document with >=1 referencing record and >1 order; distinct = distinct documents",
+     budget={"quick": 30, "thorough": 500},
+     min_counts={"quick": {"permutations": 20000, "documents_all_orders": 100}},
+     exhaustive=None)
+meta("C13",
+     rule="documents assembled from pools of GFA1-only, GFA2-only and version-neutral lines (pure, neutral, mixed; every line distinct so that multiplicity is observable) x explicit version {None,gfa1,gfa2} x dialect {standard,rgfa} x entry point {Gfa(list), Gfa(str), from_file} x vlevel; ALL permutations for documents of <=6 (quick) / <=7 (thorough) lines; expected version / VersionError from the independent line classifier; each input line must appear exactly once; non-trivial = document with a version-ambiguous line arriving before the deciding line",
+     budget={"quick": 25, "thorough": 400},
+     min_counts={"quick": {"orders": 20000, "documents_all_orders": 200}},
+     set_samples=["kinds"])
+
+meta("C10",
+     rule="states built from generated GFA1/GFA2 documents (asymmetric CIGARs, paths, groups; vlevel 0-3, canonical and free spelling, so that lazily decoded fields exist) x random sequences of 10-40 calls drawn from the catalogue of read-only public queries (vlib/mon/catalogue.py: Gfa-, line-, segment-, edge-, link-, group- and alignment-level); every call is executed twice under the purity guard: full observation of the Gfa plus written form / repr of receiver and argument objects before, between and after, and both answers must agree; non-trivial = sequence touching a CIGAR with I/D or a lazily decoded / freely spelled field",
+     budget={"quick": 30, "thorough": 450},
+     min_counts={"quick": {"guarded_calls": 15000, "queries_exercised": 140}},
+     set_samples=["queries_exercised"])
+
+meta("C12",
+     rule="(1) exhaustively: 4 orientation pairs x {A->B, A->A, B->A} x all 1-operation and all ordered 2-operation CIGARs over M,I,D,P,=,X,H plus '*': complement text vs the model, involution, length exchange, symmetric and repeatable equivalence tests; (2) random links with CIGARs of <=6 operations: adding the complement of a stored link (either form stored) adds nothing and raises nothing, a link differing otherwise is a separate edge; paths over the link in both traversal directions x 6 arrival orders of P/L/S, the recorded direction flag is checked by interpreting it; non-trivial = overlap different from its own complement",
+     budget={"quick": 20, "thorough": 300},
+     min_counts={"quick": {"complements": 3000, "equivalence_tests": 20000, "complement_additions": 300, "path_resolutions": 600}},
+     exhaustive="stratum (1): orientation pairs x segment pairs x all 1- and 2-operation CIGARs")
+
+meta("C19",
+     rule="every line of generated GFA1/GFA2 documents (all record types incl. header, comments, custom records; connected to a Gfa or stand-alone; vlevel 0-3) is cloned: detached, same written form, equal in both directions; an aliasing monitor compares by identity every mutable object (list, dict, CIGAR, Operation, Trace, NumericArray, OrientedLine, FieldArray) reachable from the public field values of both copies; in-place edit scripts on the clone (and on the original's tags) must leave the other copy and the Gfa textually unchanged; non-trivial = line with >=1 mutable-valued field",
+     budget={"quick": 20, "thorough": 300},
+     min_counts={"quick": {"clones": 20000, "edit_scripts": 10000, "clone:S": 1, "clone:L": 1, "clone:C": 1, "clone:P": 1,
+                           "clone:E": 1, "clone:F": 1, "clone:G": 1, "clone:O": 1, "clone:U": 1, "clone:H": 1,
+                           "clone:#": 1, "clone:custom": 1}},
+     set_samples=["cloned_mutable_kinds"])
+meta("C20",
+     rule="Python values of every supported kind (int, finite float, str, char, JSON list/dict, integer/float array, byte array) on and next to subtype/grammar boundaries, and values the datatype cannot represent (tab/newline/non-printable strings, non-finite floats, mixed/out-of-range/empty arrays, bytes > 255, JSON with non-printables), assigned by set() / attribute / after set_datatype on S, L, E, H lines at vlevel 0-3; checked: default datatype, validate_field, written tag vs the datatype grammar, smallest array subtype, read back through gfapy.Line(str(line)) equal with the same datatype; unrepresentable values must fail validation and not be written unflagged at level >= 2; distinct = (kind, value, way, level, carrier)",
+     budget={"quick": 20, "thorough": 300},
+     min_counts={"quick": {"assignments": 30000, "read_backs": 10000, "bad_values_validated": 2000, "kinds": 14}},
+     set_samples=["kinds"])
